@@ -354,11 +354,11 @@ def run_units(task, tier, seed, col):
 def _compound_strategy(nit):
     names = list(env.unit_names("mult"))
     if nit == "float":
-        exps = st.one_of(st.integers(-4, 4).filter(bool), st.sampled_from([0.5, -0.5, 1.5, 0.25, 2.5, -1.5, 0.125, 1.75]))
+        exps = st.one_of(st.integers(-4, 4).filter(bool), st.sampled_from([0.5, -0.5, 1.5, 0.25, 2.5, -1.5, 0.125, 1.75]), st.sampled_from([5, 6, 7, 8, 9, 10, 12, 19, -9, -10, 0.9, 36]))  # every digit occurs
     elif nit == "Decimal":
-        exps = st.one_of(st.integers(-4, 4).filter(bool), st.sampled_from([Decimal("0.5"), Decimal("-1.5"), Decimal("0.25"), Decimal("2.5")]))
+        exps = st.one_of(st.integers(-4, 4).filter(bool), st.sampled_from([Decimal("0.5"), Decimal("-1.5"), Decimal("0.25"), Decimal("2.5")]), st.sampled_from([5, 6, 7, 8, 9, 10, -9, 19]))
     else:
-        exps = st.one_of(st.integers(-4, 4).filter(bool), st.sampled_from([Fraction(1, 2), Fraction(-3, 2), Fraction(1, 4), Fraction(5, 2), Fraction(1, 3)]))
+        exps = st.one_of(st.integers(-4, 4).filter(bool), st.sampled_from([Fraction(1, 2), Fraction(-3, 2), Fraction(1, 4), Fraction(5, 2), Fraction(1, 3)]), st.sampled_from([5, 6, 7, 8, 9, 10, -9, 19, Fraction(9, 7)]))
     return st.builds(lambda u, spec, short: {"units": u, "spec": short + spec, "nit": nit},
                      st.dictionaries(st.sampled_from(names + ["kilometer", "millisecond", "microgram"]), exps, min_size=1, max_size=4), st.sampled_from(SPECS), st.sampled_from(["", "~"]))
 
@@ -395,7 +395,7 @@ MSPECS = ["", ".3f", ".2e", "g", ".4g", "n", "10.2f", "+.1f", "e", ".0f"]
 def _quantity_strategy(nit):
     names = ["meter", "second", "kilogram", "kelvin", "newton", "percent", "degree", "inch", "millisecond", "kilometer", "hertz", "joule", "radian"]
     if nit == "float":
-        mags = st.one_of(st.integers(-10 ** 6, 10 ** 6), st.floats(-1e12, 1e12, allow_nan=False, allow_subnormal=False), st.sampled_from([1.5e-7, 2.5e9, 0.1, 1e-3, 123456.789]))
+        mags = st.one_of(st.integers(-10 ** 6, 10 ** 6), st.floats(-1e12, 1e12, allow_nan=False, allow_subnormal=False), st.sampled_from([1.5e-7, 2.5e9, 0.1, 1e-3, 123456.789, 1.5e-9, 2e19, 3.25e-18, 6.02e23, 1e-16, 4.5e15]))
     elif nit == "Decimal":
         mags = st.one_of(st.integers(-10 ** 6, 10 ** 6), st.decimals(-10 ** 6, 10 ** 6, places=4, allow_nan=False))
     else:
